@@ -126,6 +126,59 @@ class GenRule(TermRule):
         return res
 
     # ---- calls
+    def _signature(self, it, node, recv, q):
+        """positional-or-keyword parameter names of a repo callee (None when the callee is not a repo function)"""
+        m = it.m
+        f = node.func
+        fi = None
+        if isinstance(f, ast.Attribute):
+            if recv is not None and recv.kind == "self" and it.self_cls:
+                fi = m.find_method(it.self_cls, f.attr)
+            elif isinstance(f.value, ast.Name) and f.value.id == "cls" and it.self_cls:
+                fi = m.find_method(it.self_cls, f.attr)
+            elif isinstance(f.value, ast.Call) and ast.unparse(f.value.func) == "super" and it.self_cls:
+                for c in m.mro(it.self_cls)[1:]:
+                    ci = m.classes.get(c)
+                    if ci is not None and f.attr in ci.methods:
+                        fi = ci.methods[f.attr]
+                        break
+            elif q and q in m.funcs:
+                fi = m.funcs[q]
+        elif isinstance(f, ast.Name) and q:
+            if q in m.funcs:
+                fi = m.funcs[q]
+            elif q in m.classes:
+                fi = m.find_method(q, "__init__")
+                if fi is None or not fi.qual.startswith("urllib3."):
+                    ci = m.classes[q]
+                    names = [n.target.id for n in ci.node.body if isinstance(n, ast.AnnAssign) and isinstance(n.target, ast.Name)]
+                    return names or None
+        if fi is None or not fi.qual.startswith("urllib3."):
+            return None
+        a = fi.node.args
+        names = [x.arg for x in a.posonlyargs + a.args]
+        if fi.cls is not None and names and names[0] in ("self", "cls") and not any("staticmethod" in d for d in fi.decorators):
+            names = names[1:]
+        return names
+
+    def _canon_args(self, it, node, recv, q, pos, kw):
+        """f(a, y=b) and f(a, b) are the same call when y is f's second parameter: keywords that continue the positional
+        prefix of a repo callee's signature are moved into it."""
+        if not kw or "*" in kw:
+            return pos, kw
+        try:
+            names = self._signature(it, node, recv, q)
+        except Exception:
+            names = None
+        if not names:
+            return pos, kw
+        pos, kw = list(pos), dict(kw)
+        i = len(pos)
+        while i < len(names) and names[i] in kw:
+            pos.append(kw.pop(names[i]))
+            i += 1
+        return pos, kw
+
     def call_hook(self, it, st, node, recv, pos, kw):
         f = node.func
         text = ast.unparse(f)
@@ -139,6 +192,8 @@ class GenRule(TermRule):
                 kw["**"] = tv(sp.sym or "?open")
         if text in ("typing.cast", "cast") and len(pos) == 2:
             return [Out("normal", st, pos[1])]  # a static-typing no-op
+        q0 = it.resolve_callee(node, recv)
+        pos, kw = self._canon_args(it, node, recv, q0, pos, kw)
         args = [term_of(p) for p in pos] + [f"{k}={term_of(v)}" for k, v in sorted(kw.items())]
         if text in self.quiet or text.startswith("log."):
             return [Out("normal", st, UNK)]
@@ -442,3 +497,21 @@ def check_decision_table(ctx, rule, fi, rows, env_of, spec, what, why=""):
         desc = ", ".join(f"{k}={v}" for k, v in env.items() if v is not None)
         ctx.ob(rule, fi.qual, f"{what} row [{desc}] -> {val}", ok, "" if ok else (why + f" (specification gives {sorted(want)} on this row)").strip(), witness=r.witness(), node=fi.node)
     return n
+
+
+def bind(names, args):
+    """name -> term for call arguments rendered by GenRule (`t`, `t`, `k=t`, ...), given the callee's parameter names."""
+    out = {}
+    i = 0
+    for a in args:
+        head = a.split("(", 1)[0]
+        if "=" in head and not a.startswith(("'", '"', "b'", 'b"')):
+            k, v = a.split("=", 1)
+            out[k] = v
+        else:
+            if i < len(names):
+                out[names[i]] = a
+            else:
+                out[f"#{i}"] = a
+            i += 1
+    return out
